@@ -66,6 +66,10 @@ func encodeDouble(c []rune, esc []bool) []rune {
 			out = append(out, '\\', r)
 		case !esc[i]:
 			out = append(out, r)
+		case (r == ' ' || r == '\t' || r == '\r' || r == '\n') && rt.Bool("rawesc"):
+			// the other documented way to escape white space: \<char> with the character itself
+			// (added after a seeded change to the handling of an escaped line feed was missed)
+			out = append(out, '\\', r)
 		case r == ' ':
 			out = append(out, '\\', 's')
 		case r == '\t':
@@ -249,4 +253,84 @@ func VerifC09BlockExpr() {
 	got, err := fork.Variables.GetString("x")
 	rt.Assert(err == nil, "variable assigned from the literal cannot be read")
 	rt.Assert(sameRunes(got, c), "expression value differs from the literal's contents")
+}
+
+// ---- `$name` inside double / brace quotes: the value is spliced in as it is (C08's rule for the
+// trailing line end applies: at most one trailing CR/LF of the value may be dropped).
+
+func splicedOK(got, v string) bool {
+	const pre, post = "pre ", " post"
+	ok := false
+	n := len(v)
+	try := func(val string, cond bool) {
+		if len(got) == len(pre)+len(val)+len(post) {
+			ok = rt.Or(ok, rt.And(cond, got == pre+val+post))
+		}
+	}
+	try(v, true)
+	if n >= 1 {
+		try(v[:n-1], rt.Or(v[n-1] == '\n', v[n-1] == '\r'))
+	}
+	if n >= 2 {
+		try(v[:n-2], rt.And(v[n-2] == '\r', v[n-1] == '\n'))
+	}
+	return ok
+}
+
+// bracePair: v contains a `{` and, later, a `}`.
+func bracePair(v string) bool {
+	k := false
+	for i := 0; i < len(v); i++ {
+		for j := i + 1; j < len(v); j++ {
+			k = rt.Or(k, rt.And(v[i] == '{', v[j] == '}'))
+		}
+	}
+	return k
+}
+
+var expandForms = []string{
+	`cmd "pre $v post"`,
+	`cmd %(pre $v post)`,
+	`x = "pre $v post"`,
+	`x = %(pre $v post)`,
+	`cmd "pre $(v) post"`,
+}
+
+// VerifC09Expand: v holds every ASCII text of 0..n bytes; the literal's value is `pre ` + v + ` post`.
+func VerifC09Expand() {
+	n := rt.Param("n")
+	l := rt.Choice("len", n+1)
+	form := rt.Choice("form", len(expandForms))
+	v := rt.String("v", l)
+	for i := 0; i < l; i++ {
+		rt.Assume(v[i] < 0x80)
+	}
+	rt.KnownFinding("C09-ansi-const-in-variable-value", rt.And(form == 1, bracePair(v)))
+	fork := newScope()
+	err := fork.Variables.Set(fork.Process, "v", v, "str")
+	rt.Assert(err == nil, "could not set a string variable")
+	text := []rune(expandForms[form])
+	var got string
+	if text[0] == 'c' {
+		_, params, err := expressions.StatementParametersParser(text, fork.Process)
+		rt.Assert(err == nil, "literal with $v rejected in argument position")
+		if err != nil {
+			return
+		}
+		rt.Assert(len(params) == 1, "a quoted literal holding $v did not give exactly one argument")
+		if len(params) != 1 {
+			return
+		}
+		got = params[0]
+	} else {
+		_, err := expressions.ExecuteExpr(fork.Process, text)
+		rt.Assert(err == nil, "literal with $v rejected in expression position")
+		if err != nil {
+			return
+		}
+		got, err = fork.Variables.GetString("x")
+		rt.Assert(err == nil, "variable assigned from the literal cannot be read")
+	}
+	rt.Reach("expanded")
+	rt.Assert(splicedOK(got, v), "the value of $v was not spliced into the literal unchanged")
 }
